@@ -423,4 +423,13 @@ fn main() {
             }
         }
     });
+    run("S31 a module with a continuation type (stack-switching proposal): parse, then encode (C01)", || {
+        let w = wat::parse_str(r#"(module (type $ft (func)) (type $ct (cont $ft)))"#).unwrap();
+        println!("input validates (all features): {}", wasmparser::Validator::new_with_features(wasmparser::WasmFeatures::all()).validate_all(&w).is_ok());
+        let r = catch_unwind(AssertUnwindSafe(|| { let mut m = Module::parse(&w, false).unwrap(); m.encode() }));
+        match r {
+            Ok(b) => { println!("output validates: {}", wasmparser::Validator::new_with_features(wasmparser::WasmFeatures::all()).validate_all(&b).is_ok()); show("S31", &b); }
+            Err(_) => println!("PANIC in encode"),
+        }
+    });
 }
